@@ -1,5 +1,7 @@
 """Shared extraction for the verification tasks: Problem builder chains, theory pipelines, role closures."""
 from .facts import AnalysisGap, callee, callee_generic, ctor_of, local_id_of, local_of, strip, walk
+import re
+
 from . import flow, hq
 
 
@@ -9,7 +11,9 @@ def name_template(arg):
         return s["v"]
     for n in walk(arg):
         if n.get("mac") == "format" and "mac_src" in n:
-            return hq.macro_template(n["mac_src"])
+            t = hq.macro_template(n["mac_src"])
+            # `{i}` names a local, not output: one spelling for named and positional placeholders
+            return re.sub(r"\{[A-Za-z_][A-Za-z0-9_]*(:[^{}]*)?\}", lambda m_: "{" + (m_.group(1) or "") + "}", t) if isinstance(t, str) else t
     return None
 
 
